@@ -337,8 +337,9 @@ fn main() {
     }
     if a.rest.first().map(|s| s.as_str()) == Some("--crash-table") {
         // exploration: every operation x sizes on a 2 MiB thread in a subprocess
-        let sizes: Vec<usize> = a.rest[1..].iter().map(|s| s.parse().unwrap()).collect();
-        for (op, _) in OPS { for &n in &sizes {
+        let sizes: Vec<usize> = a.rest[1..].iter().filter_map(|s| s.parse().ok()).collect();
+        let only: Vec<&str> = a.rest[1..].iter().filter(|s| s.parse::<usize>().is_err()).map(|s| s.as_str()).collect();
+        for (op, _) in OPS { if !only.is_empty() && !only.iter().any(|o| op.starts_with(o)) { continue; } for &n in &sizes {
             let (o, dt) = run_child(op, n, 2 << 20, 600);
             println!("{op:18} n={n:<8} [{PROFILE}] {o:?} ({dt:.1}s)");
         } }
